@@ -361,7 +361,9 @@ AllAny(s, r, isAll) ==
 \* sum(it, start): start is 0 or a user object; reduce(func, it[, initial])
 StartV == IF cfg.par.startv = "zero" THEN 0 ELSE Node("startobj", <<>>)
 Sum(s, r) ==
-  CASE s.pc = "init" -> [s |-> [pc |-> "got", acc |-> StartV], eff |-> Pull(1)]
+  CASE s.pc = "init" ->
+         IF cfg.par.startv = "str" THEN [s |-> To("end"), eff |-> RaiseX("TypeError")]   \* sum() can't sum strings
+         ELSE [s |-> [pc |-> "got", acc |-> StartV], eff |-> Pull(1)]
     [] s.pc = "got" ->
          IF r.k = "stop" THEN [s |-> To("end"), eff |-> Return(s.acc)]
          ELSE [s |-> [pc |-> "got", acc |-> Node("add", <<s.acc, r.v>>)], eff |-> Pull(1)]
@@ -392,7 +394,7 @@ MinMax(s, r, isMax) ==
     [] s.pc = "got" ->
          IF r.k = "stop"
          THEN IF s.has THEN [s |-> To("end"), eff |-> Return(s.best)]
-              ELSE IF cfg.par.dflt THEN [s |-> To("end"), eff |-> Return(Node("default", <<>>))]
+              ELSE IF cfg.par.dflt # "no" THEN [s |-> To("end"), eff |-> Return(Node("default", <<>>))]
               ELSE [s |-> To("end"), eff |-> RaiseX("ValueError")]
          ELSE IF cfg.par.key
               THEN [s |-> [pc |-> "keyed", has |-> s.has, best |-> s.best, bk |-> s.bk, x |-> r.v],
@@ -583,12 +585,14 @@ ConfigsOf(t) ==
     [] t \in {"all", "any"} ->
          {[tool |-> t, par |-> NoPar, data |-> d] : d \in DataSets(1, K01)}
     [] t = "sum" ->
-         {[tool |-> t, par |-> [startv |-> v], data |-> d] : v \in {"zero", "obj"}, d \in DataSets(1, K1)}
+         {[tool |-> t, par |-> [startv |-> v], data |-> d] : v \in {"zero", "obj", "str"}, d \in DataSets(1, K1)}
     [] t = "reduce" ->
          {[tool |-> t, par |-> [init |-> b], data |-> d] : b \in BOOLEAN, d \in DataSets(1, K1)}
     [] t \in {"min", "max"} ->
+         \* dflt: "no" | "fresh" (an object of its own) | "first" (the very object that is also
+         \* the first item, if there is one): only for empty input is the default the result
          {[tool |-> t, par |-> [key |-> b, dflt |-> v], data |-> d] :
-             b \in BOOLEAN, v \in BOOLEAN, d \in DataSets(1, K12)}
+             b \in BOOLEAN, v \in {"no", "fresh", "first"}, d \in DataSets(1, K12)}
     [] t \in {"list", "tuple"} ->
          {[tool |-> t, par |-> NoPar, data |-> d] : d \in DataSets(1, K1)}
     [] t \in {"set", "dict"} ->
